@@ -1,3 +1,194 @@
-/-! Property C06 — theorems (statements live here, helper lemmas in Faithful/Lib) -/
+import Faithful.Lib.GsfaIndex
+/-!
+# Property C06 — the address index returns every indexed transaction of an address, newest first
+
+The model is the **repaired** writer and reader (/verif/fixes/C06-1.patch: flusher capacity, drain on exit,
+wait before flushing the accumulator; /verif/fixes/C06-2.patch: prefix width taken from the record).
+
+* thresholds (`itemsPerBatch`, parked-buffer limit, periodic-flush thresholds, `rankListSize`) are the fields of
+  `Params`; every theorem is for arbitrary values, so shrinking them in the harness is sound;
+* a schedule is an event list: the client's events with `bgRecv` events of the background goroutine anywhere
+  in between (`evs.filter Ev.isClient = ps.flatMap clientEvents`); the theorems quantify over all of them;
+* zstd is abstract (`Z.Lawful`: decompress ∘ compress = id; nothing about lengths);
+* the three hashmaps are abstract (`FMap`): the theorems hold for every lawful implementation, in particular
+  for the `Std.HashMap` one the driver runs and the function one the examples evaluate.
+
+Hypotheses that remain, and why: `index … = .ok idx` (the writer completed: the only modelled failures are a
+record offset ≥ 2^48 or a record size ≥ 2^24, which the 6+3-byte pointers cannot hold); no record of 4 GiB or
+more (`uint32(numWritten)` truncates silently); and the rank bound (see `rank_eviction_reorders`).
+-/
 namespace C06
+open Gsfa
+
+/-! ## linked-log records -/
+
+/-- every record reads back — for **all** compressed lengths (no case split on the varint width) -/
+theorem record_roundtrip (Z : Zstd) (hZ : Z.Lawful) (es : List Entry) (prev : Ptr) (pb : Bytes)
+    (hpb : ptrBytes prev = .ok pb) (hprev : prev.size < 2 ^ 32)
+    (file : Bytes) (off : Nat) (hslice : B.slice file off (mkRecord Z es pb).length = mkRecord Z es pb)
+    (hsize : (mkRecord Z es pb).length ≤ mib256) :
+    readWithSize Z file off (mkRecord Z es pb).length = .ok (es.reverse, prev) :=
+  Gsfa.record_roundtrip Z hZ es prev pb hpb hprev file off hslice hsize
+
+/-- why the pinned reader failed: it skipped `width (total)` bytes, and for a prefix value `L` (payload + 9)
+    below 16384 that is the real prefix width exactly when `L ∉ {127, 16382, 16383}` (totals 128, 16384, 16385) -/
+theorem old_reader_prefix_width_iff (L : Nat) (h : L < 16384) :
+    Varint.width (L + Varint.width L) = Varint.width L ↔ (L ≠ 127 ∧ L < 16382) := by
+  by_cases h1 : L < 128
+  · rw [Varint.reader_width_iff_1 h1]
+    constructor
+    · intro hne; exact ⟨hne, by omega⟩
+    · intro hh; exact hh.1
+  · rw [Varint.reader_width_iff_2 (by omega) h]
+    constructor
+    · intro hl; exact ⟨by omega, hl⟩
+    · intro hh; exact hh.2
+
+/-! ## the writer under every schedule -/
+
+variable {A : AccMap} {Rk : RankMap} {H : HeadMap}
+
+/-- after `Close`, for every event list (= every interleaving of the background goroutine with `Push`), the
+    log holds per address exactly its pushes, in push order: nothing lost, duplicated or reordered -/
+theorem writer_log_ordered (p : Params) (evs : List Ev) (hne : NoEvict p (init : St A Rk) evs) (a : Addr) :
+    ofKey a (close p (run p evs (init : St A Rk))).log = hist a evs :=
+  closed_log p evs hne a
+
+/-- `purge` cannot evict before `B · (R+1)(R+2)/2` entries have been pushed, whatever the schedule -/
+theorem no_evict_below_rank_bound (p : Params) (evs : List Ev) (hb : pushCount evs < p.B * tri (p.R + 1)) :
+    NoEvict p (init : St A Rk) evs :=
+  noEvict_of_bound p evs hb
+
+/-- **C06** for every push history `ps`, every schedule `evs` of it, every threshold setting, every lawful
+    zstd and hashmap implementation: reading any address returns exactly the entries pushed with it, each once,
+    newest first (cut at `limit`); an address never pushed is "not found".
+    Side condition `NoEvict`: `purge` never finds more than `R` distinct counts (discharged from a size bound
+    in `gsfa_roundtrip_bounded_rank`). -/
+theorem gsfa_roundtrip (Z : Zstd) (hZ : Z.Lawful) (p : Params) (ps : List PushCall) (evs : List Ev)
+    (hsched : evs.filter Ev.isClient = ps.flatMap clientEvents)
+    (hne : NoEvict p (init : St A Rk) evs)
+    (idx : LogSt H) (hidx : index A Rk H Z p evs = .ok idx) (hrec : ∀ r ∈ idx.rrecs, r.length < 2 ^ 32)
+    (a : Addr) (limit : Nat) (hl : 0 < limit) :
+    readerGet Z idx a limit =
+      if pushesOf a ps = [] then .error (.err "notfound") else .ok ((pushesOf a ps).reverse.take limit) := by
+  have hh : hist a evs = pushesOf a ps := by
+    rw [← hist_filter_client, hsched, hist_calls]
+  rw [index_roundtrip Z hZ p evs hne idx hidx hrec a limit hl, hh]
+
+/-- **C06 with the explicit rank bound**: as `gsfa_roundtrip`, the side condition replaced by
+    "fewer than `B · (R+1)(R+2)/2` (address, entry) pairs were pushed" (≈ 5·10^10 for the real constants) -/
+theorem gsfa_roundtrip_bounded_rank (Z : Zstd) (hZ : Z.Lawful) (p : Params) (ps : List PushCall) (evs : List Ev)
+    (hsched : evs.filter Ev.isClient = ps.flatMap clientEvents)
+    (hbound : pairCount ps < p.B * tri (p.R + 1))
+    (idx : LogSt H) (hidx : index A Rk H Z p evs = .ok idx) (hrec : ∀ r ∈ idx.rrecs, r.length < 2 ^ 32)
+    (a : Addr) (limit : Nat) (hl : 0 < limit) :
+    readerGet Z idx a limit =
+      if pushesOf a ps = [] then .error (.err "notfound") else .ok ((pushesOf a ps).reverse.take limit) := by
+  have hpc : pushCount evs = pairCount ps := by
+    rw [← pushCount_filter_client, hsched, pushCount_calls]
+  exact gsfa_roundtrip Z hZ p ps evs hsched (noEvict_of_bound p evs (by rw [hpc]; exact hbound)) idx hidx hrec a limit hl
+
+/-! ## concrete instances: non-vacuity, and the counter-example beyond the rank bound -/
+
+abbrev Af : AccMap := FMap.fn (List Entry) []
+abbrev Rf : RankMap := FMap.fn Nat 0
+abbrev Hf : HeadMap := FMap.fn Ptr Ptr.zero
+
+/-- a lawful stand-in for zstd -/
+def Zid : Zstd := ⟨id, some⟩
+theorem Zid_lawful : Zid.Lawful := fun _ => rfl
+
+def mkE (n : Nat) : Entry := ⟨UInt64.ofNat (1000 + n), UInt64.ofNat (200 + n), UInt64.ofNat n, 3⟩
+
+/-- batch size 3, two parked buffers, periodic flush on even slots with more than one key accumulating -/
+def exP : Params := { B := 3, P := 2, K := 1, M := 2, T := 2, R := 8 }
+
+def exCalls : List PushCall :=
+  [⟨1, [7], mkE 1⟩, ⟨2, [7, 9, 7], mkE 2⟩, ⟨3, [7], mkE 3⟩, ⟨4, [9, 7], mkE 4⟩, ⟨5, [8], mkE 5⟩, ⟨6, [7], mkE 6⟩]
+
+/-- one schedule of `exCalls`: the goroutine runs at some points in between -/
+def exEvs : List Ev :=
+  [.begin 1, .push 7 (mkE 1), .begin 2, .push 7 (mkE 2), .bgRecv, .push 9 (mkE 2), .begin 3, .push 7 (mkE 3),
+   .begin 4, .push 7 (mkE 4), .bgRecv, .push 9 (mkE 4), .begin 5, .push 8 (mkE 5), .bgRecv, .begin 6, .push 7 (mkE 6)]
+
+theorem ex_sched : exEvs.filter Ev.isClient = exCalls.flatMap clientEvents := by decide
+
+theorem ex_bound : pairCount exCalls < exP.B * tri (exP.R + 1) := by decide
+
+theorem ex_index_ok : ∃ idx, index Af Rf Hf Zid exP exEvs = .ok idx ∧ ∀ r ∈ idx.rrecs, r.length < 2 ^ 32 := by
+  have h : (match index Af Rf Hf Zid exP exEvs with
+      | .ok idx => decide (∀ r ∈ idx.rrecs, r.length < 2 ^ 32)
+      | .error _ => false) = true := by decide
+  revert h
+  cases index Af Rf Hf Zid exP exEvs with
+  | ok idx => intro h; exact ⟨idx, rfl, of_decide_eq_true h⟩
+  | error e => intro h; cases h
+
+/-- non-vacuity of `gsfa_roundtrip(_bounded_rank)`: all hypotheses hold for `exCalls` under `exEvs`, and the
+    conclusion is the expected concrete list -/
+example : ∃ idx : LogSt Hf, index Af Rf Hf Zid exP exEvs = .ok idx ∧
+    readerGet Zid idx 7 100 = .ok [mkE 6, mkE 4, mkE 3, mkE 2, mkE 1] ∧
+    readerGet Zid idx 9 1 = .ok [mkE 4] ∧ readerGet Zid idx 5 100 = .error (.err "notfound") := by
+  obtain ⟨idx, hidx, hrec⟩ := ex_index_ok
+  refine ⟨idx, hidx, ?_, ?_, ?_⟩
+  · rw [gsfa_roundtrip_bounded_rank Zid Zid_lawful exP exCalls exEvs ex_sched ex_bound idx hidx hrec 7 100 (by decide)]
+    decide
+  · rw [gsfa_roundtrip_bounded_rank Zid Zid_lawful exP exCalls exEvs ex_sched ex_bound idx hidx hrec 9 1 (by decide)]
+    decide
+  · rw [gsfa_roundtrip_bounded_rank Zid Zid_lawful exP exCalls exEvs ex_sched ex_bound idx hidx hrec 5 100 (by decide)]
+    decide
+
+/-- non-vacuity of `writer_log_ordered` / `no_evict_below_rank_bound` -/
+example : ofKey 7 (close exP (run exP exEvs (init : St Af Rf))).log = [mkE 1, mkE 2, mkE 3, mkE 4, mkE 6] := by
+  rw [writer_log_ordered exP exEvs (no_evict_below_rank_bound exP exEvs (by decide)) 7]
+  decide
+
+/-- non-vacuity of `record_roundtrip`: a record with a previous pointer, somewhere inside a file -/
+example : readWithSize Zid ([1, 2, 3] ++ mkRecord Zid [mkE 1, mkE 2] (B.le 6 77 ++ B.le 3 30) ++ [9]) 3
+    (mkRecord Zid [mkE 1, mkE 2] (B.le 6 77 ++ B.le 3 30)).length = .ok ([mkE 2, mkE 1], ⟨77, 30⟩) := by
+  decide
+
+/-- non-vacuity of `old_reader_prefix_width_iff`: both sides are false at 127 and true at 126 -/
+example : ¬ Varint.width (127 + Varint.width 127) = Varint.width 127 := by
+  rw [old_reader_prefix_width_iff 127 (by decide)]; decide
+example : Varint.width (126 + Varint.width 126) = Varint.width 126 := by
+  rw [old_reader_prefix_width_iff 126 (by decide)]; decide
+
+/-- 19 entries whose encoding is 118 bytes: with the 9 pointer bytes the prefix value is 127, the record 128 -/
+def es128 : List Entry := (List.range 18).map mkE ++ [⟨20000, 20000, 20000, 0⟩]
+
+set_option maxRecDepth 8192 in
+/-- the pinned reader on a 128-byte record: it does not return the record (the repaired one does) -/
+theorem old_reader_fails_at_128 :
+    (mkRecord Zid es128 (B.le 6 0 ++ B.le 3 0)).length = 128 ∧
+    readWithSize Zid (mkRecord Zid es128 (B.le 6 0 ++ B.le 3 0)) 0 128 = .ok (es128.reverse, Ptr.zero) ∧
+    readWithSizeOld Zid (mkRecord Zid es128 (B.le 6 0 ++ B.le 3 0)) 0 128 ≠ .ok (es128.reverse, Ptr.zero) := by
+  refine ⟨by decide, by decide, by decide⟩
+
+/-! ### beyond the rank bound the property fails (shrunk constants) -/
+
+/-- one distinct count allowed (`R = 1`), batch size 3, periodic flush on slots divisible by 100 -/
+def cxP : Params := { B := 3, P := 2, K := 0, M := 100, T := 2, R := 1 }
+
+/-- address 2 fills two batches, address 1 fills one (still in flight: the goroutine has only parked it) and
+    gets a fourth entry; then a push on slot 100 runs the periodic flush: `purge` sees the counts {1, 2}, evicts
+    address 1, and its fourth entry is written *before* the parked batch -/
+def cxCalls : List PushCall :=
+  [⟨1, [2], mkE 1⟩, ⟨2, [2], mkE 2⟩, ⟨3, [2], mkE 3⟩, ⟨4, [2], mkE 4⟩, ⟨5, [2], mkE 5⟩, ⟨6, [2], mkE 6⟩,
+   ⟨7, [1], mkE 7⟩, ⟨8, [1], mkE 8⟩, ⟨9, [1], mkE 9⟩, ⟨10, [1], mkE 10⟩, ⟨100, [3], mkE 11⟩]
+
+def cxEvs : List Ev := cxCalls.flatMap (fun c => clientEvents c ++ [.bgRecv])
+
+/-- **the latent defect**: with 11 ≥ `B · tri (R+1)` = 9 pushed entries the round trip fails — address 1 reads
+    back in the wrong order.  (For the real constants the bound is ≈ 5·10^10 entries, so this cannot be
+    replayed against the unmodified code; the harness replays it against the threshold-shrunk copy.) -/
+theorem rank_eviction_reorders :
+    cxEvs.filter Ev.isClient = cxCalls.flatMap clientEvents ∧
+    ¬ pairCount cxCalls < cxP.B * tri (cxP.R + 1) ∧
+    (match index Af Rf Hf Zid cxP cxEvs with
+      | .ok idx => decide (readerGet Zid idx 1 100 = .ok [mkE 9, mkE 8, mkE 7, mkE 10])
+      | .error _ => false) = true ∧
+    (pushesOf 1 cxCalls).reverse = [mkE 10, mkE 9, mkE 8, mkE 7] := by
+  refine ⟨by decide, by decide, by decide, by decide⟩
+
 end C06
